@@ -378,6 +378,20 @@ def _load_layouts(R, only):
             if "score" not in rd["cols"] or fx.same_values(got, want, ("count", "score")):
                 R.mismatch("load-result-depends-on-column-layout" + ("" if mono else ":non-monotone"), inner, f"got={got} want={want}")
             scratch.rm(out)
+            # ... and a plain load with the DEFAULT layout right afterwards (nothing of the previous call's options may stick)
+            txt2 = os.path.join(d, "default.txt")
+            with open(txt2, "w") as fh:
+                for (i, j), c, s_ in pixl:
+                    row = ([str(i), str(j)] if fmt == "coo" else [bins[i][0], str(bins[i][1]), str(bins[i][2]), bins[j][0], str(bins[j][1]), str(bins[j][2])]) + [str(c), "777", "888"]
+                    fh.write("\t".join(row) + "\n")
+            code, so, exc = build.cli(["load", "-f", fmt, "--temp-dir", d, bed, txt2, out])
+            if code != 0 or exc is not None:
+                R.mismatch("default-load-after-custom-load-fails", inner, f"code={code} exc={exc!r:.300}")
+            else:
+                got2, _ = fx.read(out)
+                if {k: v["count"] for k, v in got2.items()} != {k: c for k, c, _ in pixl}:
+                    R.mismatch("default-load-after-custom-load-reads-other-columns", inner, f"got={got2}")
+            scratch.rm(out)
     scratch.rm(d)
 
 
